@@ -9,7 +9,7 @@ EXTENDS Naturals, Sequences, FiniteSets
 
 CONSTANTS FS, CS, MaxN, LimitTuples
 
-ZG == INSTANCE ZipGuard WITH Deviations <- {}, LimitSets <- {},
+ZG == INSTANCE ZipGuard WITH Deviations <- {}, LimitSets <- {}, AttrBits <- {FALSE},
           es <- <<>>, L <- 0, pc <- "", i <- 0, totU <- 0, totC <- 0, verdict <- "", why <- "",
           objs <- <<>>, vb <- {}, held <- {}, okb <- {}, cpos <- 0, call <- 0
 
